@@ -54,11 +54,65 @@ func drawC01(t *rapid.T) *Case {
 		}
 	}
 	cps, metas := DrawFront(t, FrontOpts{MinClients: 1, MaxClients: 5, MaxReqs: 3, Segment: true, Hello: ho, Sequential: drawBool(t, "seq", 50)})
+	cps, metas = addResumers(t, cps, metas)
 	p.Clients = cps
 	p.Tape, p.Tail = drawTape(t, 64)
 	c := &Case{Plan: p, Metas: metas, Oracle: oracleC01}
 	c.Summary = defaultSummary(p, metas)
 	return c
+}
+
+// addResumers appends, for some clients, a second connection of the same client that
+// resumes the TLS session (pre_shared_key in TLS 1.3, session ticket in TLS 1.2): same
+// hello plus the extension utls fills in from the shared session cache.
+func addResumers(t *rapid.T, cps []*ClientPlan, metas []*ClientMeta) ([]*ClientPlan, []*ClientMeta) {
+	n := len(cps)
+	for i := 0; i < n; i++ {
+		h := cps[i].Hello
+		if h == nil || h.NoExtensions || !drawBool(t, "resume", 20) {
+			continue
+		}
+		hasPSK := false
+		for _, e := range h.Exts {
+			if e.Kind == "fakepsk" || e.Kind == "realpsk" {
+				hasPSK = true
+			}
+		}
+		if hasPSK || h.SNI() == "" {
+			continue
+		}
+		id := len(cps)
+		cps[i].SessionGroup = i + 1
+		nh := *h
+		nh.Exts = append([]ExtPlan(nil), h.Exts...)
+		hasTicket, hasModes := false, false
+		for _, e := range nh.Exts {
+			if e.Kind == "ticket" {
+				hasTicket = true
+			}
+			if e.Kind == "pskmodes" {
+				hasModes = true
+			}
+		}
+		if !hasTicket {
+			nh.Exts = append(nh.Exts, ExtPlan{Kind: "ticket"})
+			cps[i].Hello.Exts = append(cps[i].Hello.Exts, ExtPlan{Kind: "ticket"})
+		}
+		if nh.VersMax == 0x0304 {
+			if !hasModes {
+				nh.Exts = append(nh.Exts, ExtPlan{Kind: "pskmodes", U8: []uint8{1}})
+			}
+			nh.Exts = append(nh.Exts, ExtPlan{Kind: "realpsk"})
+		}
+		tw := &ClientPlan{ID: id, Addr: cps[i].Addr, Hello: &nh, SessionGroup: i + 1, StartAfterDone: []int{i}}
+		m := &ClientMeta{Proto: metas[i].Proto, Preamble: metas[i].Preamble}
+		r := ReqSpec{Tag: fmt.Sprintf("c%d-r0", id), Method: "GET", Path: "/resumed", Host: "resume.verif.test"}
+		m.Reqs = []ReqSpec{r}
+		RebuildFrontSteps(tw, m)
+		cps = append(cps, tw)
+		metas = append(metas, m)
+	}
+	return cps, metas
 }
 
 func oracleC01(w *World, c *Case) {
@@ -139,6 +193,13 @@ func twinHello(t *rapid.T, h *HelloPlan) *HelloPlan {
 			break
 		}
 	}
+	// pre_shared_key must be the last extension of a TLS 1.3 hello
+	for i, e := range n.Exts {
+		if e.Kind == "fakepsk" || e.Kind == "realpsk" {
+			n.Exts = append(append(n.Exts[:i:i], n.Exts[i+1:]...), e)
+			break
+		}
+	}
 	return n
 }
 
@@ -151,10 +212,11 @@ func drawC02(t *rapid.T) *Case {
 	p.Args = drawCommonArgs(t)
 	ho := HelloOpts{AllowNoExt: true}
 	cps, metas := DrawFront(t, FrontOpts{MinClients: 1, MaxClients: 3, MaxReqs: 2, Segment: true, Hello: ho})
+	cps, metas = addResumers(t, cps, metas)
 	aux := &c02Aux{Twin: map[int]int{}}
 	n := len(cps)
 	for i := 0; i < n; i++ {
-		if !drawBool(t, "twin", 70) {
+		if !drawBool(t, "twin", 70) || cps[i].SessionGroup != 0 {
 			continue
 		}
 		id := len(cps)
